@@ -74,6 +74,14 @@ fn main() {
                 records.push(serde_json::json!({"kind": "const", "name": cs.name, "gen_line": start_line}));
             }
             spec::Item::Fn(fs) => {
+                // a function belongs to the cone of the requested properties iff one of its
+                // clauses (or its `cone` directive) is tagged with one of them
+                let wanted = |t: &Vec<String>| t.iter().any(|x| x == "common" || tags.contains(x));
+                let in_cone = fs.enss.iter().any(|c| wanted(&c.tags)) || wanted(&fs.cone)
+                    || fs.loops.values().any(|l| l.invs.iter().any(|c| wanted(&c.tags)));
+                if !in_cone {
+                    continue;
+                }
                 let (s, rec) = rewrite::emit_fn(&idx, fs, &tags, debug_view, start_line, &mut stats);
                 text.push_str(&s);
                 text.push('\n');
